@@ -2565,7 +2565,10 @@ BD_Shape<T>::simplify_using_context_assign(const BD_Shape& y) {
   // Filter away the zero-dimensional case.
   if (dim == 0) {
     if (y.marked_empty()) {
-      x.set_zero_dim_univ();
+      // Do not keep the matrix of `x': if `x' was found empty by the
+      // closure algorithm, its (only) entry is negative.
+      BD_Shape<T> res(dim, UNIVERSE);
+      x.m_swap(res);
       return false;
     }
     else {
